@@ -16,9 +16,7 @@ for N in $NAMES; do
   T=$(cd $W; timeout 600 /venv/bin/python -m pytest -q -p no:cacheprovider --timeout=900 2>&1 | tail -1)
   echo "=== $N: tests: $T"
   for C in $CH; do
-    cp evidence/$C.json /tmp/benign-$N.$C.bak 2>/dev/null
     PYVC_EVIDENCE_DIR=/tmp/scratch-evidence-$$ LOMOND_ROOT=$W timeout 1500 ./check $C > /tmp/benign-$N.$C.out 2>&1; E=$?
-    cp /tmp/benign-$N.$C.bak evidence/$C.json 2>/dev/null
     echo "  $N $C: exit=$E $(tail -1 /tmp/benign-$N.$C.out)"
     [ $E -ne 0 ] && grep -E '^(VIOLATION|UNDECIDED|CHECKER-FAULT)' /tmp/benign-$N.$C.out | head -5 | sed 's/^/     /'
   done
